@@ -30,8 +30,8 @@ CHECKS = {
                 note='partial claim: SHA-256, base64, serde_json are ideal primitives; redact abstract (C04); native replays recompute with sha2 / base64 / an independent canonical-JSON writer at the size boundary',
                 ref='DESIGN.md §4 C05'),
     'C06': dict(engine='mirsym', technique=MIRSYM,
-                text='the one order-sensitive kernel within reach: lexicographical_topological_sort executed from MIR under every iteration order of every HashMap / HashSet it walks (symbolic order index per iteration), every DAG over <= 3 nodes (4 thorough), symbolic power levels and timestamps; z3 decides that the emitted order is the specified function of graph and keys, hence independent of hasher seeds, threads and repetition; native replays call it 16 times with fresh RandomState seeds',
-                note='partial claim (DESIGN §4 C06): resolve() as a whole, permutations of the state-set / auth-chain arguments, separate / auth-chain difference and the creator cache are NOT decided; BinaryHeap / HashMap / HashSet are library models',
+                text='the three hash-order-sensitive kernels of resolve() executed from MIR under every iteration order of every HashMap / HashSet they walk (symbolic order index per iteration): lexicographical_topological_sort (every DAG over <= 3 nodes, symbolic power levels / timestamps; z3 decides the emitted order is the specified function of graph and keys), separate (1-2 state sets, 3 thorough; unconflicted / conflicted split as maps) and get_auth_chain_diff (1-3 chains; ids missing from some chain, as a set); hence independent of hasher seeds, threads and repetition; native replays call each 16 times with fresh RandomState seeds',
+                note='partial claim (DESIGN §4 C06): resolve() as a whole (composition of the kernels, iterative auth checks, mainline ordering), permutations of the state-set / auth-chain arguments and the creator cache are NOT decided; BinaryHeap / HashMap / HashSet are library models',
                 ref='DESIGN.md §4 C06'),
     'C07': dict(engine='mirsym', technique=MIRSYM,
                 text='the exposed topological sort clause only: lexicographical_topological_sort executed from MIR on every DAG over <= 3 nodes (4 thorough) with every identifier assignment, symbolic power level and timestamp per node, all hash iteration orders; z3 decides every node once, dependencies first, and among ready nodes greatest power level, then earliest timestamp, then smallest event id',
@@ -62,7 +62,7 @@ CHECKS = {
                 note='partial claim (DESIGN §4 C16): only path selection; the macro-generated HTTP conversions, URL percent-encoding and XMatrix are outside; tracing modelled as disabled',
                 ref='DESIGN.md §4 C16'),
     'C17': dict(engine='mirsym', also_kani=True, technique='symbolic execution of rustc MIR + SMT (z3) for the string / byte scanners; Kani/CBMC for the DER rewrite; bounded; native replay',
-                text='no-panic for the ruma-owned scanners of untrusted input: mxc_uri / key_id validators (every UTF-8 string <= 300 bytes), MatrixId::parse_with_sigil (<= 12 bytes), ContentDisposition::try_from(&[u8]) (every byte string <= 4 bytes quick / 6 thorough), push word matching on UTF-8 text with multi-byte characters (value <= 5, pattern <= 2 bytes), the ring-compat PKCS#8 rewrite of Ed25519KeyPair::from_der (Kani, every byte string <= 8 bytes); ruleset edits are decided by C13',
+                text='no-panic for the ruma-owned scanners of untrusted input: mxc_uri / key_id validators (every UTF-8 string <= 300 bytes), MatrixId::parse_with_sigil (<= 12 bytes), ContentDisposition::try_from(&[u8]) (every byte string <= 4 bytes quick / 5 thorough), push word matching on UTF-8 text with multi-byte characters (value <= 6, literal pattern <= 4 bytes; 7 / 4 thorough), the ring-compat PKCS#8 rewrite of Ed25519KeyPair::from_der (Kani, every byte string <= 8 bytes); ruleset edits are decided by C13',
                 note='partial claim (DESIGN §4 C17): serde_json / serde-derive deserialization, html5ever, http_auth (XMatrix), url::Url are third-party and outside; no claim on stack depth, termination or cross-call effects',
                 ref='DESIGN.md §4 C17'),
     'C19': dict(engine='mirsym', technique=MIRSYM,
